@@ -312,7 +312,7 @@ class SchedulingSolver(BaseModelWithJson):
                 # unloading tasks
                 for t in buffer._unloading_tasks:
                     f = z3.Function(
-                        f"{buffer.name}_{t.name}_quantity_unloading",
+                        f"{buffer.name}_quantity_unloading_{t.name}",
                         z3.IntSort(),
                         z3.IntSort(),
                     )
@@ -330,7 +330,7 @@ class SchedulingSolver(BaseModelWithJson):
                 # loading tasks
                 for t in buffer._loading_tasks:
                     f = z3.Function(
-                        f"{buffer.name}_{t.name}_quantity_loading",
+                        f"{buffer.name}_quantity_loading_{t.name}",
                         z3.IntSort(),
                         z3.IntSort(),
                     )
